@@ -2,6 +2,7 @@ import OjgVerif.Common.Driver
 import OjgVerif.Reflect.Model
 import OjgVerif.Reflect.Registry
 import OjgVerif.Reflect.RoundTripSpec
+import OjgVerif.Reflect.Lemmas
 /-! Driver ops of the `reflect` family (line protocol, see `Common/Driver.lean`).
 
 Types and values travel as space separated tokens in prefix form (strings as hex, `-` = empty):
@@ -17,7 +18,8 @@ Ops:
   of the structure); `<flags>` eight 0/1: tags exact nest omitnil omitempty fullpath indent strict.
   Answers `panic`, `outside` (not in the modelled fragment) or the canonical tree.
 * `rtok <flags> <bytesAs> <createKey> <type> <value>` — `yes` when the hypotheses of the round-trip theorem
-  (`rtOK (effOpts o)`, no interface slot, OmitNil/OmitEmpty/strict off) hold, else `no`.
+  (`rtOK (effOpts o)`, no interface slot, OmitNil/OmitEmpty off) hold, else `no`; with the strict flag set the
+  hypotheses of `recompose_inverts_marshal_tree` (the oj.Marshal route: `untriggered .oj`, `rtOK o`).
 * `recomp <b|-> <createKey> <history> <type> <tree>` — `Recompose(tree, new(type))` on a recomposer that
   has seen the history; `b`: the code as it is (lookup by bare name), `-`: with the repair.
   `<history>` is `-` or events joined by ` ; `: `R <type>` (RegisterComposer) or `C <type> | <tree>`
@@ -366,7 +368,11 @@ def handleRecomp : List String → String
 def handleRtok (flags bytesAs ck ty val : String) : String :=
   match readOpts flags bytesAs ck, readType ty, readVal val with
   | some o, some t, some v =>
-    if !o.omitNil && !o.omitEmpty && !o.strict && typeInFragment t && valInFragment v && noIface t &&
+    if o.strict then
+      -- the oj.Marshal route: hypotheses of `recompose_inverts_marshal_tree`
+      (if !o.omitNil && !o.omitEmpty && typeInFragment t && valInFragment v && noIface t && !isSliceIface t &&
+          untriggered .oj Dev.current o fuelT (planFixed o fuelT) 256 true false t v && rtOK o 256 t v then "yes" else "no")
+    else if !o.omitNil && !o.omitEmpty && typeInFragment t && valInFragment v && noIface t &&
         rtOK (effOpts o) 256 t v then "yes"
     else "no"
   | _, _, _ => "bad-op"
